@@ -194,13 +194,23 @@ class Field:
     def format(self) -> Tag:
         """Present this field's body as HTML."""
         return safe_to_stan(self.body, self.source.docstring_linker, self.source,
-                    # the parsed docstring maybe doesn't support to_node(), i.e. ParsedTypeDocstring,
-                    # so we can only show the broken text.
-                    fallback=lambda _, __, ___:BROKEN)
+                    fallback=_field_body_fallback)
 
     def report(self, message: str) -> None:
         self.source.report(message, lineno_offset=self.lineno, section='docstring')
 
+
+def _field_body_fallback(errs: List[ParseError], doc: ParsedDocstring, ctx: model.Documentable) -> Tag:
+    """
+    Show the text of a field body that could not be rendered as plain text.
+    """
+    try:
+        # the parsed docstring maybe doesn't support to_node(), i.e. ParsedTypeDocstring,
+        # in this case we can only show that the text is broken.
+        text = ''.join(node2stan.gettext(doc.to_node()))
+    except Exception:
+        return BROKEN
+    return tags.p(text, class_='pre')
 
 def format_field_list(singular: str, plural: str, fields: Sequence[Field]) -> Iterator[Tag]:
     """
